@@ -253,7 +253,15 @@ def line_col(text, off):
 # layouts: semantically neutral rewrites of a block text between its tokens
 # ---------------------------------------------------------------------------------------------------------------------
 
-LAYOUTS = ["plain", "blank-lines", "crlf", "comments"]
+LAYOUTS = ["plain", "blank-lines", "crlf", "comments", "boxed-comments"]
+# the first ROTATED layouts share the fault sites of the quick tier among them; the layouts after them ride along with the first
+ROTATED = 4
+
+# banner / box styles of block comments: lines that end in `*` directly before the line end, rows of stars, a star in front of `*/`,
+# CRLF inside the box.  The body of a comment is consumed by rules of its own in the lexer, and every line end inside it must
+# still be counted for the lines after it.
+BOX_LEAD = "/**********\n * lead   *\n *  ing   *\n **********/\n"
+BOX_FILL = ["/* a *\n * b */", "/*****\n *****/", "/* c **\n\n*/", "/**\n *\n **/", "/* d\t*\r\n * e *\r\n */", "/***/", "/* f*\n*/"]
 
 
 def relayout(text, layout, salt=0, kind=None):
@@ -268,6 +276,8 @@ def relayout(text, layout, salt=0, kind=None):
     if kind == "query":
         if layout == "crlf":
             return "\r\n\r\n" + text
+        if layout == "boxed-comments":
+            return boxed(text, toks, salt)
         fill = ["/* c */", "\\\n", "/* a\n b */", " \\ \n", "/**/", "/* // */"]
         out, prev = ["/* lead\n   ing */\n"], 0
         for n, (k, s, a, b) in enumerate(toks):
@@ -297,7 +307,21 @@ def relayout(text, layout, salt=0, kind=None):
             out.append(gap + s)
             prev = b
         return "".join(out) + text[prev:]
+    if layout == "boxed-comments":
+        return boxed(text, toks, salt)
     raise ValueError(layout)
+
+
+def boxed(text, toks, salt):
+    """a banner in front of the block and a box comment in every second gap between tokens (all line ends inside comments: fits a query too)"""
+    out, prev = [BOX_LEAD], 0
+    for n, (k, s, a, b) in enumerate(toks):
+        gap = text[prev:a]
+        if n > 0 and (n + salt) % 2 == 0:
+            gap += " " + BOX_FILL[((n + salt) // 2) % len(BOX_FILL)] + " "
+        out.append(gap + s)
+        prev = b
+    return "".join(out) + text[prev:]
 
 
 # ---------------------------------------------------------------------------------------------------------------------
@@ -425,11 +449,32 @@ def structural_variants(m, xml):
     return out
 
 
-# renderings of the XML layer: the same elements with and without white space between them, empty elements closed in place
-XML_LAYERS = ["pretty", "compact", "selfclosed", "compact-selfclosed"]
+# renderings of the XML layer: the same elements with and without white space between them, empty elements closed in place,
+# elements the reader does not know (an editor's extension) in front of the elements whose XPath step carries an index: the reader skips
+# them, and they must not shift or restart the sibling count of the elements after them
+XML_LAYERS = ["pretty", "compact", "selfclosed", "compact-selfclosed", "foreign"]
+FOREIGN = ['<x-layout x="0" y="0"/>', "<x-note>kept for the editor</x-note>", '<x-group a="1"><x-item/></x-group>']
+INDEXED_RE = re.compile(r"(<!\[CDATA\[.*?\]\]>)|<(?:template|location|branchpoint|transition|label|nail|query)[ >]", re.S)
+
+
+def with_foreign(xml):
+    """a foreign element in front of three of every four template / location / branchpoint / transition / label / nail / query elements
+    (so that same-named siblings occur both adjacent and separated); the forms rotate"""
+    n = [0]
+
+    def put(m):
+        if m.group(1):
+            return m.group(0)
+        n[0] += 1
+        if n[0] % 4 == 0:
+            return m.group(0)
+        return FOREIGN[n[0] % len(FOREIGN)] + "\n" + m.group(0)
+    return INDEXED_RE.sub(put, xml)
 
 
 def xml_layer(xml, layer):
+    if layer == "foreign":
+        return with_foreign(xml)
     if "selfclosed" in layer:
         xml = re.sub(r"<location ([^<>]*[^/<>])>\s*</location>", r"<location \1/>", xml)
     if layer.startswith("compact"):
